@@ -67,7 +67,7 @@ def gcirc_case(draw):
             ra2 = ra1 + math.degrees(math.atan2(math.sin(b) * math.sin(s) * math.cos(d1), math.cos(s) - math.sin(d1) * sd2))
             dec2 = math.degrees(d2)
         pairs.append([ra1, dec1, ra2, dec2])
-    return dict(pairs=pairs, units=draw(st.sampled_from([0, 1, 2])), scalar=draw(st.booleans()), broadcast=draw(st.sampled_from([False, False, True])))
+    return dict(pairs=pairs, units=draw(st.sampled_from([0, 1, 2])), scalar=draw(st.booleans()), broadcast=draw(st.sampled_from([False, False, True])), narrow_int=draw(st.booleans()))
 
 
 def gcirc_body(case):
@@ -107,7 +107,11 @@ def gcirc_body(case):
         ai[:, 2] %= (24 if units == 1 else 360)
         ai[:, 1] = np.clip(ai[:, 1], -90, 90)
         ai[:, 3] = np.clip(ai[:, 3], -90, 90)
-        gi = np.asarray(call(gcirc, ai[:, 0].astype('u4'), ai[:, 1].astype('i4'), ai[:, 2].astype('u4'), ai[:, 3].astype('i4'), units=units), dtype='f8')
+        # (32-bit columns; or, where the numbers fit, the narrowest types that hold them: hours / degrees below 256 unsigned, declinations signed 8-bit)
+        narrow = units == 1 or bool(np.all(ai[:, [0, 2]] < 256))
+        rt, dt_ = ('u1', 'i1') if narrow and case.get('narrow_int') else ('u4', 'i4')
+        gi = np.asarray(call(gcirc, ai[:, 0].astype(rt), ai[:, 1].astype(dt_), ai[:, 2].astype(rt), ai[:, 3].astype(dt_), units=units), dtype='f8')
+        note_label('integer-columns:' + rt)
         ri = ai.astype(LD) * (PI_LD / 180)
         if units == 1:
             ri[:, 0] *= 15
@@ -132,6 +136,11 @@ def gcirc_body(case):
             slack = slack if units == 0 else np.degrees(slack) * 3600
             check(bool(np.all(np.abs(g4.astype(LD) - ref4) <= 1e-5 * ref4 + slack)), 'gcirc:single-precision-input-wrong-distance',
                   lambda: dict(units=units, got=g4.tolist(), want=[float(v) for v in ref4]))
+    if units == 2 and not case['scalar']:
+        # "array-like": the default convention (degrees) accepts plain Python lists of coordinates
+        gl = np.asarray(call(gcirc, a[:, 0].tolist(), a[:, 1].tolist(), a[:, 2].tolist(), a[:, 3].tolist()), dtype='f8')
+        with judge('gcirc-lists'):
+            check(gl.shape == got.shape and bool(np.array_equal(gl, got)), 'gcirc:lists-differ-from-arrays', lambda: dict(lists=gl.tolist(), arrays=got.tolist()))
     if case.get('broadcast') and len(a) > 1:
         # one reference point (scalars) against a vector of points, and a column against a row: ordinary NumPy broadcasting
         one = np.asarray(call(gcirc, float(a[0, 0]), float(a[0, 1]), a[:, 2], a[:, 3], units=units))
